@@ -47,7 +47,8 @@ PickW(ws) == LET s == Expand(ws) IN s[Pick(1..Len(s))]
 (*  exclusion Excluded_F_C01_1: a loop there gets no label of its own, since the  *)
 (*  interpreter rejects a label declared inside a case clause - known finding)    *)
 Ctx0 == [rd |-> {"g0", "g1"}, wr |-> {"g0", "g1"}, loc |-> {}, defd |-> {}, labs |-> <<>>, incase |-> FALSE, pure |-> FALSE,
-         fcall |-> TRUE, clos |-> {}, fs |-> FALSE, ret |-> "none", rvar |-> FALSE, dfr |-> FALSE, top |-> FALSE, d |-> 2]
+         fcall |-> TRUE, clos |-> {}, fs |-> FALSE, ret |-> "none", rvar |-> FALSE, dfr |-> FALSE, top |-> FALSE,
+         litidx |-> FALSE, d |-> 2]
 
 RECURSIVE GenE(_, _), GenC(_, _), GenS(_), GenB(_, _), GenLitBody(_), GenDeferBody(_)
 
@@ -56,7 +57,7 @@ GenLeaf(c) ==
     CASE k = "lit" -> Lit(Pick(0..5))
       [] k = "var" -> Var(Pick(c.rd))
       [] k = "fld" -> [k |-> "fld", f |-> Pick({"a", "b"})]
-      [] k = "idx" -> [k |-> "idx", i |-> IF Pick(1..2) = 1 THEN Lit(Pick(0..1)) ELSE Var(Pick(c.rd))]
+      [] k = "idx" -> [k |-> "idx", i |-> IF c.litidx \/ Pick(1..2) = 1 THEN Lit(Pick(0..1)) ELSE Var(Pick(c.rd))]
 
 \* pure expression
 GenE(d, c) ==
@@ -72,11 +73,21 @@ GenCall(c) ==
     IF c.clos # {} /\ (~c.fcall \/ Pick(1..2) = 1) THEN [k |-> "clo", c |-> Pick(c.clos)]
     ELSE CallE("f", GenE(1, c))
 
+RECURSIVE IsConstE(_)
+IsConstE(e) == e.k = "lit" \/ (e.k = "bin" /\ IsConstE(e.l) /\ IsConstE(e.r))
+
+\* Named exclusions of the random tiers (known findings, each with a pinned witness):
+\*  Excluded_F_C01_2: a condition never compares two constant expressions
+\*  Excluded_F_C01_3: inside && / || an index expression has a literal index
 GenC(d, c) ==
-    LET k == IF d = 0 THEN "cmp" ELSE PickW(<< <<5, "cmp">>, <<1, "and">>, <<1, "or">>, <<1, "not">> >>) IN
-    CASE k = "cmp" -> Cmp(Pick({"lt", "le", "eq", "ne"}), GenE(1, c), GenE(IF d = 0 THEN 0 ELSE 1, c))
-      [] k = "and" -> [k |-> "and", l |-> GenC(0, c), r |-> GenC(0, c)]
-      [] k = "or"  -> [k |-> "or",  l |-> GenC(0, c), r |-> GenC(0, c)]
+    LET k == IF d = 0 THEN "cmp" ELSE PickW(<< <<5, "cmp">>, <<1, "and">>, <<1, "or">>, <<1, "not">> >>)
+        c2 == [c EXCEPT !.litidx = ~Pinned]
+    IN
+    CASE k = "cmp" -> LET l == GenE(1, c)
+                          r == GenE(IF d = 0 THEN 0 ELSE 1, c)
+                      IN Cmp(Pick({"lt", "le", "eq", "ne"}), IF ~Pinned /\ IsConstE(l) /\ IsConstE(r) THEN Var(Pick(c.rd)) ELSE l, r)
+      [] k = "and" -> [k |-> "and", l |-> GenC(0, c2), r |-> GenC(0, c2)]
+      [] k = "or"  -> [k |-> "or",  l |-> GenC(0, c2), r |-> GenC(0, c2)]
       [] k = "not" -> [k |-> "not", x |-> GenC(0, c)]
 
 InSwitchOfLoop(c) == FALSE
@@ -98,7 +109,9 @@ GenDeferBody(c) ==
         rec == IF Pick(1..3) # 1 THEN << [k |-> "recover", how |-> PickW(<< <<4, "direct">>, <<1, "helper">> >>),
                                          setr |-> c.rvar /\ Pick(1..2) = 1] >> ELSE <<>>
         pre == GenB(Pick(0..1), c1)
-        post == IF Pick(1..4) = 1 THEN << [k |-> "panic", e |-> Lit(Pick(6..9))] >> ELSE GenB(Pick(0..1), c1)
+        dd  == {pre[i].x : i \in {j \in 1..Len(pre) : pre[j].k = "def"}} \cup {pre[i].c : i \in {j \in 1..Len(pre) : pre[j].k = "mkclo"}}
+        post == IF Pick(1..4) = 1 THEN << [k |-> "panic", e |-> Lit(Pick(6..9))] >>
+                ELSE GenB(Pick(0..1), [c1 EXCEPT !.defd = dd])
     IN pre \o rec \o post
 
 Kinds(c) ==
@@ -113,7 +126,7 @@ Kinds(c) ==
           <<5 * eff, "print">>, <<eff, "printg">>,
           <<3 * call, "asgc">>, <<IF FreeNames(c) # {} THEN 2 * call ELSE 0, "defc">>, <<2 * call, "printc">>,
           <<2 * call, "csc">>, <<IF c.ret \in {"val", "named"} THEN call ELSE 0, "retc">>,
-          <<IF c.fcall /\ ~c.pure /\ c.loc # {} THEN 2 ELSE 0, "opasgc">>,
+          <<IF c.fcall /\ ~c.pure /\ (c.loc \cap c.wr) # {} THEN 2 ELSE 0, "opasgc">>,
           <<IF deep /\ c.fcall /\ ~c.pure THEN 1 ELSE 0, "ifc">>,
           <<IF deep THEN 3 ELSE 0, "if">>, <<IF deep THEN 3 ELSE 0, "for">>, <<IF deep THEN 2 ELSE 0, "switch">>,
           <<IF loop THEN 2 ELSE 0, "brk">>, <<IF loop THEN 2 ELSE 0, "cont">>,
@@ -123,7 +136,8 @@ Kinds(c) ==
           <<IF deep /\ ~c.top THEN deferW * eff ELSE 0, "defer">>,
           <<(IF Profile = "defer" THEN 3 ELSE 1) * eff, "panic">>,
           <<(IF Profile = "defer" THEN 2 ELSE 0) * eff, "fault">>,
-          <<IF c.dfr THEN 2 ELSE 0, "recover">>,
+          \* Excluded_F_C06_7: no recover inside a loop of a deferred literal
+          <<IF c.dfr /\ (Pinned \/ c.labs = <<>>) THEN 2 ELSE 0, "recover">>,
           <<IF deep THEN 1 ELSE 0, "block">> >>
 
 \* a statement and the context for the statements that follow it in the block
@@ -150,14 +164,16 @@ GenS(c) ==
       [] k = "printc" -> S([k |-> "print", id |-> Pick(100..99999), e |-> GenCall(c)])
       [] k = "csc"   -> S([k |-> "discard", e |-> GenCall(c)])
       [] k = "retc"  -> S([k |-> "ret", bare |-> FALSE, e |-> GenCall(c)])
-      [] k = "opasgc" -> S([k |-> "opasg", x |-> Pick(c.loc), op |-> Pick({"add", "sub"}), e |-> CallE("f", GenE(1, c))])
+      [] k = "opasgc" -> S([k |-> "opasg", x |-> Pick(c.loc \cap c.wr), op |-> Pick({"add", "sub"}), e |-> CallE("f", GenE(1, c))])
       [] k = "ifc"   -> S([k |-> "if", c |-> Cmp(Pick({"lt", "le", "eq", "ne"}), CallE("f", GenE(1, c)), Lit(Pick(0..5))),
                            th |-> GenB(Pick(1..2), Inner(c)), el |-> IF Pick(1..2) = 1 THEN GenB(1, Inner(c)) ELSE <<>>])
       [] k = "if"    -> S([k |-> "if", c |-> GenC(1, c), th |-> GenB(Pick(1..2), Inner(c)),
                            el |-> IF Pick(1..2) = 1 THEN GenB(Pick(1..2), Inner(c)) ELSE <<>>])
       [] k = "for"   -> LET v   == <<"i", "j", "k">>[Len(c.labs) + 1]
                             lab == IF c.incase /\ ~Pinned THEN "" ELSE <<"L1", "L2", "L3">>[Len(c.labs) + 1]
-                            c1  == [Inner(c) EXCEPT !.rd = @ \cup {v}, !.wr = @ \cup {v}, !.loc = @ \cup {v}, !.labs = Append(@, lab)]
+                            \* Excluded_F_C01_4: the body does not assign the loop variable
+                            c1  == [Inner(c) EXCEPT !.rd = @ \cup {v}, !.wr = IF Pinned THEN @ \cup {v} ELSE @ \ {v},
+                                                    !.loc = @ \cup {v}, !.labs = Append(@, lab)]
                         IN S([k |-> "for", v |-> v, n |-> Pick(1..3), lab |-> lab, body |-> GenB(Pick(1..3), c1)])
       [] k = "switch" -> LET n  == Pick(1..2)
                              vs == IF n = 1 THEN <<Pick(0..3)>> ELSE LET a == Pick(0..3) IN <<a, (a + Pick(1..3)) % 4>>
@@ -295,6 +311,22 @@ Witnesses ==
                               body |-> << [k |-> "for", v |-> "i", n |-> 2, lab |-> "L1",
                                            body |-> << PrintS(Var("i")), [k |-> "brk", lab |-> "L1"] >>] >>] >>,
                 dflt |-> <<>>], [k |-> "printg"] >>),
+      WProg("condition-comparing-two-constants", <<>>,
+            << [k |-> "if", c |-> Cmp("lt", Lit(3), Bin("sub", Lit(2), Lit(1))), th |-> <<PrintS(Lit(1))>>, el |-> <<PrintS(Lit(2))>>],
+               [k |-> "printg"] >>),
+      WProg("computed-index-in-logical-operand", <<>>,
+            << [k |-> "if", c |-> [k |-> "and", l |-> Cmp("lt", [k |-> "idx", i |-> Var("g0")], Var("g1")), r |-> Cmp("eq", Var("g1"), Lit(2))],
+                th |-> <<PrintS(Lit(1))>>, el |-> <<PrintS(Lit(2))>>], [k |-> "printg"] >>),
+      WProg("loop-variable-assigned-in-body", <<>>,
+            << For2(<< [k |-> "inc", x |-> "i", d |-> 1], PrintS(Var("i")) >>), [k |-> "printg"] >>),
+      WProg("blank-assignment-of-a-call-result", <<>>,
+            << [k |-> "mkclo", c |-> "c1", body |-> << [k |-> "ret", bare |-> FALSE, e |-> Lit(3)] >>],
+               [k |-> "blankcall", e |-> [k |-> "clo", c |-> "c1"]],
+               [k |-> "mkclo", c |-> "c2", body |-> << [k |-> "ret", bare |-> FALSE, e |-> Lit(4)] >>],
+               [k |-> "printg"] >>),
+      WProg("recover-in-a-loop-of-a-deferred-call",
+            << DLit(<< For2(<< Rec("direct", FALSE) >>) >>), PanicS(6) >>,
+            << PrintS(CallE("f", Lit(1))), [k |-> "printg"] >>),
       WProg("loop-variable-in-deferred-literal",
             << For2(<<DLit(<<PrintS(Var("i"))>>)>>) >>,
             << PrintS(CallE("f", Lit(1))) >>) }
